@@ -134,7 +134,8 @@ def materialise(case, d):
             fh.write(data)
         os.chmod(p, f.get("mode", 0o644))
         if f.get("mtime"):
-            os.utime(p, (f["mtime"], f["mtime"]))
+            # sub-second parts too, different for access and modification time
+            os.utime(p, ns=(f["mtime"] * 10**9 + f.get("atime_nsec", 0) - 3 * 10**9 * (1 if f.get("atime_nsec") else 0), f["mtime"] * 10**9 + f.get("mtime_nsec", 0)))
         orig[f["name"]] = data
     if case.get("_join"):
         joined = b""
@@ -239,7 +240,7 @@ def execute(case):
                     if name == "_stdout":
                         continue
                     st3 = os.lstat(p3)
-                    t[name] = {"mode": st3.st_mode, "size": st3.st_size, "nlink": st3.st_nlink, "mtime": int(st3.st_mtime), "uid": st3.st_uid, "gid": st3.st_gid}
+                    t[name] = {"mode": st3.st_mode, "size": st3.st_size, "nlink": st3.st_nlink, "mtime": st3.st_mtime_ns // 10**9, "mtime_ns": st3.st_mtime_ns, "uid": st3.st_uid, "gid": st3.st_gid}
                     if os.path.isfile(p3) and not os.path.islink(p3):
                         t[name]["data"] = open(p3, "rb").read()
                 return t
@@ -268,7 +269,7 @@ def execute(case):
         for name in sorted(os.listdir(wd)):
             p2 = os.path.join(wd, name)
             st = os.lstat(p2)
-            ent = {"mode": st.st_mode, "size": st.st_size, "nlink": st.st_nlink, "mtime": int(st.st_mtime), "uid": st.st_uid, "gid": st.st_gid,
+            ent = {"mode": st.st_mode, "size": st.st_size, "nlink": st.st_nlink, "mtime": st.st_mtime_ns // 10**9, "mtime_ns": st.st_mtime_ns, "atime_ns": st.st_atime_ns, "uid": st.st_uid, "gid": st.st_gid,
                    "blocks": st.st_blocks}
             if os.path.islink(p2):
                 ent["link"] = os.readlink(p2)
